@@ -237,7 +237,13 @@ impl VerifHeap {
 
     /// Copies the partial string at cell `loc` to the end of the heap.
     pub fn copy_pstr_within(&mut self, loc: usize) -> Option<usize> {
-        self.heap.copy_pstr_within(loc).ok()
+        self.heap.copy_pstr_within(loc * 8).ok()
+    }
+
+    /// (length, capacity) in bytes.
+    pub fn extent(&self) -> (usize, usize) {
+        let (_, len, cap) = self.heap.verif_block();
+        (len, cap)
     }
 
     /// Copies the cell range `from..to` to the end of the heap.
